@@ -453,6 +453,49 @@ func expandDef(t *Term) *Term {
 
 func Select(a, i *Term) *Term { return selectDepth(a, i, 6) }
 
+// SelectDeep resolves a read through arbitrarily nested branch merges (memoised on the
+// merged terms, so shared sub-DAGs are visited once). Used for the few reads whose
+// syntactic value matters (result slots at panic points).
+func SelectDeep(a, i *Term) *Term {
+	memo := map[*Term]*Term{}
+	var rec func(a *Term, depth int) *Term
+	rec = func(a *Term, depth int) *Term {
+		if r, ok := memo[a]; ok {
+			return r
+		}
+		var out *Term
+		cur := a
+		for out == nil {
+			c := expandDef(cur)
+			switch {
+			case c.Op == "store":
+				j := c.Args[1]
+				if j.Key() == i.Key() || sameIdx(i, j) {
+					out = c.Args[2]
+				} else if distinctIdx(i, j) {
+					cur = c.Args[0]
+				} else {
+					out = selectDepth(cur, i, 0)
+				}
+			case c.Op == "zeroarr":
+				out = Int(0)
+			case c.Op == "ite" && depth < 400:
+				x, y := rec(c.Args[1], depth+1), rec(c.Args[2], depth+1)
+				if x.Key() == y.Key() {
+					out = x
+				} else {
+					out = Ite(c.Args[0], x, y)
+				}
+			default:
+				out = selectDepth(cur, i, 0)
+			}
+		}
+		memo[a] = out
+		return out
+	}
+	return rec(a, 0)
+}
+
 func selectDepth(a, i *Term, budget int) *Term {
 	cur := a
 	for {
